@@ -71,6 +71,9 @@ ASSUME PCF(Rec("ns.int", <<Field("value", S("int")), Field("next", JArr(<<S("nul
          = JObj(<<Nm("ns.int"), T("record"), <<"fields", JArr(<<Field("value", S("int")), Field("next", JArr(<<S("null"), S("ns.int")>>))>>)>>>>)
 ASSUME PCF(Logical("int", "date")) = S("int")
 ASSUME PCF(Dec(4, 2)) = S("bytes")
+ASSUME TextBytes(PCF(JObj(<<T("fixed"), Nm("a.Test"), <<"size", JInt(160)>>>>))) = U("{\"name\":\"a.Test\",\"type\":\"fixed\",\"size\":160}")
+ASSUME TextBytes(PCF(JArr(<<S("null"), Arr(S("int"))>>))) = U("[\"null\",{\"type\":\"array\",\"items\":\"int\"}]")
+ASSUME TextBytes(PCF(Rec("R", <<>>))) = U("{\"name\":\"R\",\"type\":\"record\",\"fields\":[]}")
 (* ... and what the named deviations (known findings) make of them *)
 ASSUME PCFd(Logical("int", "date"), NoNs, {"C12-logical-primitive-object"}) = JObj(<<T("int")>>)
 ASSUME PCFd(Dec(4, 2), NoNs, {"C12-logical-primitive-object", "C12-extra-keys-kept"})
@@ -190,7 +193,7 @@ KeysOrdered(c) ==
     [] OTHER -> TRUE
 
 EditsIrrelevant == PCF(t) = PCF(base)
-CanonicalShape == LET c == PCF(t) IN NoDupKeys(c) /\ OnlyKeptKeys(c) /\ KeysOrdered(c)
+CanonicalShape == LET c == PCF(t) IN NoDupKeys(c) /\ OnlyKeptKeys(c) /\ KeysOrdered(c) /\ CanonTextOk(c)
 Idempotent == ~NullNsNested(base) => PCF(PCF(t)) = PCF(t)
 (* a canonical form is a fixed point of every edit-free respelling: it contains no namespace keys, no objects for primitives *)
 GreyStable == NullNsNested(t) = NullNsNested(base)
